@@ -20,6 +20,7 @@ def gen_case(rng, tier, wrap=False):
         first = BASE + rng.randint(0, 20)
         days, d = [], first
         sparse = rng.random() < 0.25
+        zero_prices = rng.random() < 0.15
         calendar_days = rng.random() < 0.25        # vendors with a bar for every calendar day (weekend-dated rows)
         while len(days) < n:
             if ((d + 3) % 7 <= 4 or calendar_days) and rng.random() < 0.9:
@@ -34,6 +35,12 @@ def gen_case(rng, tier, wrap=False):
             o, c = p, max(1.0, p + rng.randint(-16, 16) / 8)
             a = c * rng.choice([1.0, 0.5, 0.75, 1.25]) if rng.random() < 0.5 else round(c * rng.uniform(0.5, 1.0), 4)
             r = [d, o, c, a]
+            if zero_prices and rng.random() < 0.25:
+                # a zero or negative quote is a value like any other (only an empty cell is a missing one)
+                if adjust:
+                    r[1] = rng.choice([0.0, -1.0])              # (an adjusted open is open x adj/close: keep the ratio defined)
+                else:
+                    r[rng.choice([1, 2])] = rng.choice([0.0, -1.0, -0.5])
             for k in (1, 2, 3):
                 if rng.random() < 0.08:
                     r[k] = None
